@@ -65,7 +65,11 @@ def case(args):
     seed, i = args
     rng = random.Random(seed * 7919 + i)
     sp = shapes(rng, i // 2) if i % 2 == 0 else t3.gen_workflow(rng, maxlen=rng.choice([4, 6]), bufsize=rng.choice([1, 2]))
-    ys = (rng.randint(1, 10**6), rng.choice([100, 1000])) if rng.random() < 0.5 else None
+    # slot configurations: tasks of different processes ask for different numbers of cores (<= max)
+    if rng.random() < 0.5:
+        for p in sp.procs():
+            p.cores = rng.randint(1, sp.max)
+    ys = (rng.randint(1, 10**6), rng.choice([100, 1000])) if rng.random() < 0.6 else None
     return t3.success_case(sp, yield_seed=ys, extra_check=at_return, timeout=90)
 
 
